@@ -60,7 +60,10 @@ func Loc(tz string, def *time.Location) *time.Location {
 }
 
 type ClientCfg struct {
-	BindIP        [4]byte     `json:"bind_ip"`
+	BindIP [4]byte `json:"bind_ip"`
+	// BindNoIP: the bind address has a port but no IP address at all (netip.AddrPortFrom(netip.Addr{}, port) - what a
+	// configuration that only names the port yields); sockets bind to <any>:port
+	BindNoIP      bool        `json:"bind_without_ip,omitempty"`
 	BindPort      uint16      `json:"bind_port"`
 	HasBroadcast  bool        `json:"has_broadcast"`
 	BroadcastIP   [4]byte     `json:"broadcast_ip"`
@@ -104,6 +107,9 @@ func (c ClientCfg) Devices_() []uhppote.Device {
 
 func (c ClientCfg) addrs() (types.BindAddr, types.BroadcastAddr, types.ListenAddr, time.Duration) {
 	bind := types.BindAddrFrom(netip.AddrFrom4(c.BindIP), c.BindPort)
+	if c.BindNoIP {
+		bind = types.BindAddrFrom(netip.Addr{}, c.BindPort)
+	}
 	bcast := types.BroadcastAddr{}
 	if c.HasBroadcast {
 		bcast = types.BroadcastAddrFrom(netip.AddrFrom4(c.BroadcastIP), c.BroadcastPort)
